@@ -1,7 +1,8 @@
 """Plug-in implementation operation for the Mersenne-Twister correspondence (loaded by impl_worker.py).
 Runs the REAL `random` module - the module-level functions roberta_generator.py itself calls - on a script.
 
-case: {"op": "mt_script", "seed": enc(int), "steps": [step, ...]} with step one of
+case: {"op": "mt_script", "seed_hex": "0x...", "steps": [step, ...]} (hexadecimal: seeds of thousands of digits are
+beyond the interpreter's int/str conversion limit) with step one of
   ["random", n]                                   n calls of random.random()
   ["choices", enc(population), enc(weights), k]   random.choices(population, weights, k=k)
   ["randrange", enc(n)]                           random.randrange(0, n)
@@ -14,7 +15,7 @@ from common import enc, dec
 
 
 def op_mt_script(c):
-    random.seed(dec(c["seed"]))
+    random.seed(int(c["seed_hex"], 16))
     out = []
     for st in c["steps"]:
         try:
